@@ -112,15 +112,41 @@ def f8_sig(entries, keys):
 
 
 def free_rotamer_sig(entries, parent):
-    """'free-rotamer' if the parent heavy atom has exactly one heavy neighbour by the reference bond rule (known
-    finding F11: its hydrogens are then placed about a frame-dependent axis)."""
+    """'free-rotamer' if the parent heavy atom has exactly one heavy neighbour X by the reference bond rule and X does
+    not define a plane (fewer than two other heavy neighbours, or a non-planar centre).  Known finding F11: the
+    hydrogens of such an atom are then placed about Vector.orthogonal(), a frame-dependent axis."""
     atoms = pdbio.atoms_of(entries)
     if not isinstance(parent, int):
         return None
+    heavy = [b for b in atoms if not b.is_h]
+    grid = gen.Grid(heavy, cell=3000)
+
+    def neighbours(a):
+        return [b for b in grid.near(a, 2600) if b is not a and refs.ref_bonded(a.element, a.xyz, b.element, b.xyz)[0]]
     a = atoms[parent]
-    grid = gen.Grid([b for b in atoms if not b.is_h], cell=3000)
-    n = sum(1 for b in grid.near(a, 2600) if b is not a and refs.ref_bonded(a.element, a.xyz, b.element, b.xyz)[0])
-    return "free-rotamer" if n == 1 else None
+    nb = neighbours(a)
+    if len(nb) != 1:
+        return None
+    x = nb[0]
+    # only the sp2 nitrogens of ARG / ASN / GLN take the plane of their trigonal neighbour; every other atom with a
+    # single neighbour (sp3 by the program's electron count, e.g. a backbone N without its CA or without the
+    # preceding C) is protonated about Vector.orthogonal()
+    if (a.resn, a.aname) not in (("ARG", "NH1"), ("ARG", "NH2"), ("ASN", "ND2"), ("GLN", "NE2")) or a.rec != "ATOM":
+        return "free-rotamer"
+    others = [b for b in neighbours(x) if b is not a]
+    if len(others) < 2:
+        return "free-rotamer"
+    if len(others) >= 3:
+        return "free-rotamer"            # four neighbours: not a trigonal centre
+    # three neighbours in total: planar (trigonal) or not?
+    v = [(b.x - x.x, b.y - x.y, b.z - x.z) for b in [a] + others]
+    n = (v[0][1] * v[1][2] - v[0][2] * v[1][1], v[0][2] * v[1][0] - v[0][0] * v[1][2], v[0][0] * v[1][1] - v[0][1] * v[1][0])
+    nn = sum(c * c for c in n) ** 0.5
+    l3 = sum(c * c for c in v[2]) ** 0.5
+    if nn == 0 or l3 == 0:
+        return "free-rotamer"
+    dev = abs(sum(p * q for p, q in zip(n, v[2]))) / (nn * l3)
+    return "free-rotamer" if dev > 0.2 else None
 
 
 def centre_tie(rec, entries, key, conf):
